@@ -720,3 +720,97 @@ Proof.
   cbn [f_disp f_inf f_sup f_mask fst snd]. repeat split; try reflexivity;
     destruct (rm r c); try apply lor_bit11; try apply only_bit11_refl; auto.
 Qed.
+
+(* ================================================================== the Spec's median is well defined:
+   any two sorted arrangements of the same values have the same middle (up to ==) *)
+
+Lemma Qle_bool_false : forall x y, Qle_bool x y = false -> (y < x)%Q.
+Proof. intros x y H. apply Qnot_le_lt. rewrite <- Qle_bool_iff. congruence. Qed.
+
+Lemma isort_sorted_id : forall s, StronglySorted Qle s -> isort s = s.
+Proof.
+  induction 1 as [|x s Hs IH Hall]; cbn [isort]; [reflexivity|]. rewrite IH.
+  destruct s as [|y r]; cbn [insert]; [reflexivity|].
+  inversion Hall as [|? ? Hxy _]; subst. apply Qle_bool_iff in Hxy. rewrite Hxy. reflexivity.
+Qed.
+
+Lemma F2Qeq_refl : forall l, Forall2 Qeq l l.
+Proof. induction l; constructor; [reflexivity | assumption]. Qed.
+
+Lemma F2Qeq_trans : forall l1 l2 l3, Forall2 Qeq l1 l2 -> Forall2 Qeq l2 l3 -> Forall2 Qeq l1 l3.
+Proof.
+  intros l1 l2 l3 H. revert l3. induction H as [|x y l1 l2 Hxy H IH]; intros l3 H3; inversion H3; subst; constructor.
+  - eapply Qeq_trans; eassumption.
+  - apply IH. assumption.
+Qed.
+
+Lemma Qle_bool_compat : forall x x' y y', (x == x')%Q -> (y == y')%Q -> Qle_bool x y = Qle_bool x' y'.
+Proof.
+  intros x x' y y' Hx Hy. destruct (Qle_bool x y) eqn:E, (Qle_bool x' y') eqn:E'; try reflexivity.
+  - apply Qle_bool_iff in E. rewrite Hx, Hy in E. apply Qle_bool_iff in E. congruence.
+  - apply Qle_bool_iff in E'. rewrite <- Hx, <- Hy in E'. apply Qle_bool_iff in E'. congruence.
+Qed.
+
+Lemma insert_Qeq_compat : forall l l' x x', Forall2 Qeq l l' -> (x == x')%Q ->
+  Forall2 Qeq (insert x l) (insert x' l').
+Proof.
+  intros l l' x x' H Hx. induction H as [|y y' l l' Hy H IH]; cbn [insert].
+  - repeat constructor. assumption.
+  - rewrite (Qle_bool_compat x x' y y' Hx Hy). destruct (Qle_bool x' y'); repeat constructor; assumption.
+Qed.
+
+Lemma insert_insert : forall l x y, Forall2 Qeq (insert x (insert y l)) (insert y (insert x l)).
+Proof.
+  induction l as [|z l IH]; intros x y; cbn [insert].
+  - destruct (Qle_bool x y) eqn:Exy, (Qle_bool y x) eqn:Eyx; cbn [insert]; rewrite ?Exy, ?Eyx;
+      try apply Qle_bool_iff in Exy; try apply Qle_bool_iff in Eyx;
+      try apply Qle_bool_false in Exy; try apply Qle_bool_false in Eyx;
+      repeat constructor; lra.
+  - destruct (Qle_bool y z) eqn:Eyz, (Qle_bool x z) eqn:Exz; cbn [insert]; rewrite ?Eyz, ?Exz;
+      destruct (Qle_bool x y) eqn:Exy, (Qle_bool y x) eqn:Eyx; cbn [insert]; rewrite ?Eyz, ?Exz;
+      try apply Qle_bool_iff in Exy; try apply Qle_bool_iff in Eyx;
+      try apply Qle_bool_iff in Eyz; try apply Qle_bool_iff in Exz;
+      try apply Qle_bool_false in Exy; try apply Qle_bool_false in Eyx;
+      try apply Qle_bool_false in Eyz; try apply Qle_bool_false in Exz;
+      try (exfalso; lra);
+      repeat (constructor; try lra); try apply F2Qeq_refl; try apply IH.
+Qed.
+
+Lemma isort_perm_Qeq : forall l l', Permutation l l' -> Forall2 Qeq (isort l) (isort l').
+Proof.
+  induction 1 as [|x l l' Hp IH|x y l|l1 l2 l3 H1 IH1 H2 IH2]; cbn [isort].
+  - constructor.
+  - apply insert_Qeq_compat; [exact IH | reflexivity].
+  - apply insert_insert.
+  - eapply F2Qeq_trans; eassumption.
+Qed.
+
+Lemma F2Qeq_length : forall l l', Forall2 Qeq l l' -> length l = length l'.
+Proof. induction 1; cbn; congruence. Qed.
+
+Lemma F2Qeq_nth : forall l l', Forall2 Qeq l l' -> forall i, (nth i l 0 == nth i l' 0)%Q.
+Proof.
+  induction 1 as [|x y l l' Hxy H IH]; intros [|i]; cbn [nth]; try reflexivity; [assumption | apply IH].
+Qed.
+
+Lemma mid_Qeq : forall s s', Forall2 Qeq s s' -> (mid s == mid s')%Q.
+Proof.
+  intros s s' H. unfold mid. rewrite <- (F2Qeq_length _ _ H).
+  destruct (Nat.odd (length s)).
+  - apply F2Qeq_nth, H.
+  - rewrite (F2Qeq_nth _ _ H (length s / 2 - 1)), (F2Qeq_nth _ _ H (length s / 2)). reflexivity.
+Qed.
+
+Theorem is_median_unique : forall m m' l, is_median m l -> is_median m' l -> (m == m')%Q.
+Proof.
+  intros m m' l (s & Hp & Hs & _ & Hm) (s' & Hp' & Hs' & _ & Hm').
+  rewrite Hm, Hm'. apply mid_Qeq.
+  rewrite <- (isort_sorted_id s Hs), <- (isort_sorted_id s' Hs').
+  apply isort_perm_Qeq. rewrite Hp, Hp'. reflexivity.
+Qed.
+
+Theorem is_wmean_unique : forall m m' terms, is_wmean m terms -> is_wmean m' terms -> (m == m')%Q.
+Proof.
+  intros m m' terms [Hpos Hm] [_ Hm']. rewrite <- Hm' in Hm.
+  apply (Qmult_inj_r _ _ (sumq (map fst terms))); [lra | exact Hm].
+Qed.
